@@ -192,6 +192,38 @@ Example C09_witness_values :
 Proof. split; vm_compute; reflexivity. Qed.
 
 (* ------------------------------------------------------------------------------------------------ *)
+(* B'. _set_data's zero rule ("electricity data with 0 meter values are converted to NaNs")          *)
+(* ------------------------------------------------------------------------------------------------ *)
+
+(* temperature cells are never altered by the zero rule: a reading of exactly 0.0 F is a present reading, for
+   electricity and for gas *)
+Theorem C09_zero_rule_keeps_temperature : forall elec fr, temps_of (set_data elec fr) = temps_of fr.
+Proof. exact zero_rule_keeps_temperature_l. Qed.
+Print Assumptions C09_zero_rule_keeps_temperature.
+
+(* hence the temperature side of the classes does not depend on the fuel *)
+Theorem C09_temperature_independent_of_fuel : forall elec billing tol midx fr,
+  class_hourly elec billing tol midx fr = hourly_path billing tol midx (temps_of fr).
+Proof. exact class_hourly_fuel_l. Qed.
+Print Assumptions C09_temperature_independent_of_fuel.
+
+Theorem C09_subhourly_independent_of_fuel : forall elec scale exact fr bs,
+  class_subhourly elec scale exact fr bs = subhourly_path scale exact (temps_of fr) bs.
+Proof. exact class_subhourly_fuel_l. Qed.
+Print Assumptions C09_subhourly_independent_of_fuel.
+
+(* the usage column: untouched for gas (a usage of exactly 0 stays 0), zero -> NaN for electricity *)
+Theorem C09_zero_rule_usage_only : forall elec fr, usage_of (set_data elec fr) = zero_to_nan elec (usage_of fr).
+Proof. exact zero_rule_usage_l. Qed.
+Print Assumptions C09_zero_rule_usage_only.
+
+Example C09_nonvacuous_zero_rule :
+  let fr : list frow := [(0, Some 0%Q, Some 0%Q); (60, Some 3%Q, Some 0%Q); (120, None, Some (-2)%Q)] in
+  set_data true fr = [(0, None, Some 0%Q); (60, Some 3%Q, Some 0%Q); (120, None, Some (-2)%Q)] /\ set_data false fr = fr /\
+  n_present (temps_of (set_data true fr)) = 3.
+Proof. repeat split; vm_compute; reflexivity. Qed.
+
+(* ------------------------------------------------------------------------------------------------ *)
 (* C. non-vacuity                                                                                    *)
 (* ------------------------------------------------------------------------------------------------ *)
 
